@@ -24,6 +24,16 @@ def resolve_file(f):
 
 def norm_sig(s):
     s = re.sub(r"//[^\n]*", "", s).strip()
+    while s.startswith("#["):      # verifier attributes on the Verus side
+        depth = 0
+        for j, ch in enumerate(s):
+            if ch == "[":
+                depth += 1
+            elif ch == "]":
+                depth -= 1
+                if depth == 0:
+                    s = s[j + 1:].strip()
+                    break
     s = re.sub(r"^(pub(\s*\([^)]*\))?\s+)?", "", s)
     # named return  -> (r: T)   =>  -> T
     m = re.search(r"->\s*\(\s*\w+\s*:", s)
@@ -70,12 +80,15 @@ def parse_edit(line, unit, lineno):
     m = re.match(r"closure (\d+):\s*(.*)$", t, re.S)
     if m:
         return {"op": "closure", "n": int(m.group(1)), "header": m.group(2)}
-    m = re.match(r"replace (\w+)(?: (x\d+|any|opt))?:\s*(.*?)\s*==>\s*(.*)$", t, re.S)
+    m = re.match(r"replace (\w+)(?: (x\d+|any|opt|@\d+))?:\s*(.*?)\s*==>\s*(.*)$", t, re.S)
     if m:
         e = {"op": "replace", "rule": m.group(1), "from": m.group(3), "to": m.group(4)}
         c = m.group(2)
         if c in ("any", "opt"):
             e["count"] = c
+        elif c and c.startswith("@"):
+            e["nth"] = int(c[1:])
+            e["count"] = "any"
         elif c:
             e["count"] = int(c[1:])
         return e
